@@ -236,16 +236,31 @@ fn cli_args(sp: &Spec, extra_pos: Option<&[String]>, force_exact: bool) -> Vec<S
         'L' => a.extend(["--sortr".into(), "location".into()]),
         _ => {}
     }
+    let exact = c.exact || force_exact;
+    let pat = |s: &String| if exact { s.clone() } else { regex_escape(s) };
     for s in &c.skip {
-        a.extend(["--skip".into(), s.clone()]);
+        a.push(format!("--skip={}", pat(s)));
     }
     // positional filters last, after `--` so that a filter may start with '-'
     let pos: &[String] = extra_pos.unwrap_or(&c.pos);
     if !pos.is_empty() {
         a.push("--".into());
-        a.extend(pos.iter().cloned());
+        a.extend(pos.iter().map(pat));
     }
     a
+}
+
+/// The filters of a case are literals; without `--exact` they are passed as
+/// regular expressions matching exactly that literal.
+fn regex_escape(s: &str) -> String {
+    let mut o = String::new();
+    for c in s.chars() {
+        if "\\.+*?()|[]{}^$".contains(c) {
+            o.push('\\');
+        }
+        o.push(c);
+    }
+    o
 }
 
 fn with(mut a: Vec<String>, front: &[&str]) -> Vec<String> {
@@ -264,6 +279,17 @@ fn with(mut a: Vec<String>, front: &[&str]) -> Vec<String> {
 ///   E  exact round trip: every line of T fed back as the only --exact filter to a terse listing and a test run
 fn run_case(line: &str) -> String {
     let sp = spec::parse(line);
+    for it in &sp.items {
+        if let spec::Item::G(g) = it {
+            for e in g.generic.iter().flatten().flatten() {
+                if let (Some(t), Some(n)) = (e.ty, &e.ty_name) {
+                    if registry::type_name(t) != n {
+                        return format!("badspec type {t} is {} not {n}", registry::type_name(t));
+                    }
+                }
+            }
+        }
+    }
     let mut out = Vec::new();
     let mut terse_lines: Option<Vec<String>> = None;
     for act in sp.cfg.acts.chars() {
@@ -333,7 +359,7 @@ fn parent(mode: &str) {
                     break;
                 }
                 let r = std::panic::catch_unwind(|| match mode {
-                    "run" => run_case(&lines[i]),
+                    "run" | "c14" | "c12" | "c17" => run_case(&lines[i]),
                     "types" => (0..registry::N_TYPES).map(|t| enc(registry::type_name(t))).collect::<Vec<_>>().join(" "),
                     other => format!("unknown mode {other}"),
                 })
